@@ -98,8 +98,8 @@ impl Prop for C04 {
     }
     fn runs(&self, tier: Tier) -> u64 {
         match tier {
-            Tier::Quick => 12_000,
-            Tier::Thorough => 400_000,
+            Tier::Quick => 150_000,
+            Tier::Thorough => 2_000_000,
             Tier::Tiny => 20,
         }
     }
